@@ -47,3 +47,6 @@ add("C15", "exploration", "bounded-exhaustive enumeration of creatable schemas x
 add("C16", "exploration", "bounded-exhaustive enumeration of key strings x operations with a before/after hash of everything outside the root",
     "all 11110 keys of 1-4 components over a 10-symbol alphabet ('..', '.', empty, absolute-looking, spaces, '*', ',', ':') x create/write/query/getinfo/destroy plus create-then-destroy and write-then-destroy for '..' keys, on an in-memory device holding bucket-shaped trees around the root",
     "Go toolchain; rewriter; vos path resolution (filepath.Clean, no symlinks)", "seqmc")
+add("C17", "model_checking", "explicit-state breadth-first search over operation sequences on the real catalog, successors by replay (+ schedule exploration of concurrent operations, see DESIGN)",
+    "BFS over 24 operations (4 keys x create schema 1|2, write year 2021|2022, destroy, query) to depth 3 (thorough 5) with de-duplication by canonical state (files, header schemas, directory tree); invariant in every state: catalog listing = device scan = freshly loaded catalog, every existing bucket queryable",
+    TB + "; canonical state abstraction (stated in the evidence)", "seqmc")
